@@ -80,6 +80,23 @@ def reads_field(b, field_full):
     return False
 
 
+def _return_defs(b):
+    """(bb, None, operand) of every assignment to the return place."""
+    out = []
+    for blk in b.blocks:
+        if blk.cleanup:
+            continue
+        for st in blk.stmts:
+            if st["k"] == "assign" and st["place"]["l"] == 0 and not st["place"]["p"] and st["rv"]["k"] == "use":
+                out.append((blk.idx, None, st["rv"]["op"]))
+            elif st["k"] == "assign" and st["place"]["l"] == 0 and not st["place"]["p"]:
+                out.append((blk.idx, None, {"k": "copy", "place": {"l": 0, "p": []}}))
+        t = blk.term
+        if t["k"] == "call" and isinstance(t.get("dest"), dict) and t["dest"]["l"] == 0 and not t["dest"]["p"]:
+            out.append((blk.idx, None, {"k": "copy", "place": {"l": 0, "p": []}}))
+    return out
+
+
 def run(ctx):
     ctx.explanation = EXPL
     ctx.not_decided = NOT
@@ -92,6 +109,7 @@ def run(ctx):
     ctx.rule("R5.exclusion-passes-independent", "filter / where_available_for_current_thread iterate candidate_processors() and read no criterion that can change later; the thread-availability pass tests every candidate on every path", floor=3)
     ctx.rule("R6.total-grouping", "candidates_by_memory_region merges per region via entry().or_insert_with().push in a loop over all filtered candidates", floor=1)
 
+    ctx.rule("R10.sample-never-short", "take(n): `sample(rng, amount)` returns FEWER than `amount` elements when its source is shorter - every sample whose amount is the requested count is dominated by `source.len() < count => None` on that very source (or the amount is clamped to the source's length inside a refilling loop, or the source was chosen among collections filtered by that test): otherwise take(n) hands out a smaller set instead of nothing", floor=3)
     ctx.rule("R9.source-restriction", "a builder made from a ProcessorSet only ever considers that set's processors: every ProcessorSet -> ProcessorSetBuilder conversion goes through to_builder / source_processors, and candidate_processors restricts by id membership over all processors (ids are not positions)", floor=4)
     ctx.rule("R7.pick-removes-picked", "a loop that revisits a candidate list and pushes one randomly picked element per visit removes exactly that element (same pick, by index) from the list", floor=1)
     ctx.rule("R8.prefer-same-largest-first", "prefer-same consumes regions from a list totally sorted by (clamped) candidate count, largest first, with no re-ordering after the sort", floor=1, shape_dependent=True)
@@ -209,6 +227,21 @@ def run(ctx):
                 leaks.append(f"{callee_key(t['callee']).split('::')[-1]}@{take_all.loc(t['span'])}")
         ctx.ob("R3.quota", "take_all.no-result-bypasses-the-reduction", not leaks, take_all.loc(),
                f"results produced on paths that do not pass reduce_processors_until_under_quota (other than None): {leaks or 'none'}")
+    rd = prog.one("processor_set_builder::ProcessorSetBuilder::reduce_processors_until_under_quota")
+    if rd is not None:
+        ctx.fn(rd)
+        # what it returns is the vector it was given (moved), possibly shortened in place - never the value of a call on it
+        # (`split_off`, `drain(..).collect()` hand back the part that was CUT OFF)
+        bad = []
+        for bb, path, st in _return_defs(rd):
+            sl = Slice(rd, through_calls=False).run(st)
+            if sl["calls"] or 2 not in sl["args"]:
+                bad.append(sorted({k.split("::")[-1] for k, _, _ in sl["calls"]}) or "not the parameter")
+        shrink = [t["callee"].get("method") for bb, t in rd.calls() if not rd.blocks[bb].cleanup and t["args"] and
+                  2 in Slice(rd, through_calls=False).run(t["args"][0])["args"] and "Vec" in callee_key(t["callee"])]
+        ok = not bad and set(shrink) <= {"len", "pop", "truncate", "is_empty"} and bool(set(shrink) & {"pop", "truncate"})
+        ctx.ob("R3.quota", "reduce.returns-its-input-shortened", ok, rd.loc(),
+               f"returned value is the parameter vector itself: {not bad} {bad or ''}; operations applied to it: {sorted(set(shrink))} (allowed: len / pop / truncate)")
     rq = prog.one("processor_set_builder::ProcessorSetBuilder::resource_quota_processor_count_limit")
     if rq is None:
         ctx.missing("R3.quota", "resource_quota_processor_count_limit")
@@ -334,6 +367,7 @@ def run(ctx):
            f"entry sites {len(ent)}, or_insert sites {len(oi)}, push sites {len(pu)}, replace-on-duplicate constructions: {repl or 'none'}")
     selection_order_rules(ctx, prog, take)
     source_restriction_rules(ctx, prog)
+    sample_never_short(ctx, prog)
 
 
 def _tests_len(b, blk, vroot):
@@ -429,6 +463,62 @@ def selection_order_rules(ctx, prog, take):
         ok = key_ok and largest_first and not late
         det.append(f"key = candidate count of the region: {key_ok}; consumed largest-first: {largest_first}; re-ordering after the sort: {late or 'none'}")
     ctx.ob("R8.prefer-same-largest-first", "take.prefer-same", ok, take.loc(pt["span"]), "; ".join(det))
+
+
+def sample_never_short(ctx, prog):
+    RID = "R10.sample-never-short"
+    take = prog.one("processor_set_builder::ProcessorSetBuilder::take")
+    if take is None:
+        ctx.missing(RID, "ProcessorSetBuilder::take")
+        return
+    n = 0
+    for b in [take] + prog.closures_of(take):
+        for bb, t in b.calls():
+            if t["callee"].get("method") not in ("sample", "choose_multiple", "sample_into") or b.blocks[bb].cleanup or len(t["args"]) < 3:
+                continue
+            n += 1
+            src = Slice(b).run(t["args"][0])
+            am = Slice(b).run(t["args"][-1])
+            am_calls = {k.split("::")[-1] for k, _, _ in am["calls"]}
+            src_calls = {k.split("::")[-1] for k, _, _ in src["calls"]}
+            base = {1, 2}
+            how = None
+            if "min" in am_calls and "len" in am_calls:
+                how = "amount clamped to the source's length (the surrounding loop refills from the next source)"
+                if not b.in_loop(bb):
+                    how = None
+            if how is None:
+                for g in switch_guards(b, bb):
+                    d = b.unique_def(g.get("discr_local")) if g.get("discr_local") is not None else None
+                    if not d or d[2] != "assign" or d[3]["rv"]["k"] != "binop" or d[3]["rv"]["op"] not in ("Lt", "Ge", "Gt", "Le"):
+                        continue
+                    rv = d[3]["rv"]
+                    sa, sb = Slice(b).run(rv["a"]), Slice(b).run(rv["b"])
+                    op = rv["op"]
+                    if 2 in sa["args"] and "len" not in {k.split("::")[-1] for k, _, _ in sa["calls"]}:
+                        sa, sb = sb, sa
+                        op = {"Lt": "Gt", "Gt": "Lt", "Ge": "Le", "Le": "Ge"}[op]
+                    a_calls = {k.split("::")[-1] for k, _, _ in sa["calls"]}
+                    if "len" not in a_calls or 2 not in sb["args"] or {k.split("::")[-1] for k, _, _ in sb["calls"]} - {"get"}:
+                        continue
+                    if not ((sa["locals"] & src["locals"]) - base):
+                        continue
+                    # edge taken means len >= count
+                    enough = (op == "Lt" and g["allowed"] == {0}) or (op == "Ge" and 0 not in g["allowed"] and bool(g["allowed"]))
+                    if enough:
+                        how = "dominated by `source.len() < count => None` on the sampled collection"
+            if how is None and "get" in src_calls and "choose" in src_calls and ({"filter_map", "filter"} & src_calls):
+                for c in prog.closures_of(take):
+                    for blk in c.blocks:
+                        for st in blk.stmts:
+                            if st["k"] == "assign" and st["rv"]["k"] == "binop" and st["rv"]["op"] in ("Lt", "Ge"):
+                                sa, sb = Slice(c).run(st["rv"]["a"]), Slice(c).run(st["rv"]["b"])
+                                if "len" in {k.split("::")[-1] for k, _, _ in sa["calls"]} and sb["upvars"] and 2 in sa["args"]:
+                                    how = "source chosen among the collections a filter kept only when `len() >= count`"
+            ctx.ob(RID, f"{b.name}.sample#{n}", how is not None, b.loc(t["span"]),
+                   f"sample of the requested count: {how or 'NO length test of the sampled collection against the requested count dominates it - with fewer elements than requested the result is silently smaller'}")
+    if n == 0:
+        ctx.missing(RID, "sample(..) calls in ProcessorSetBuilder::take")
 
 
 def source_restriction_rules(ctx, prog):
